@@ -1,9 +1,109 @@
 import PersimVerif.Drv.Util
-/-! driver commands: Transformers (stub until the model lands) -/
+import PersimVerif.Drv.Imager
+import PersimVerif.Model.Transformers
+/-!
+  driver commands for C18 (models at `Rat`):
+
+    imgT.hist [b0,b1] [p0,p1] ps <calls>
+        calls = the C12 ops plus `[tr,<skew>,s|c,<data>]` (transform), `[ft,<skew>,s|c,<data>]` (fit_transform)
+        → per call `[ [b0,…,ry], out ]`, out = `none` | `[image,<desc>]` | `[images,[<desc>,…]]`,
+          desc = `[zeros,rx,ry]` | `[img,rx,ry,<skew>,<dgm>]` (which diagram, under which geometry, the
+          image is the image of — pixel content is abstract here); a rejected call ends the list with `err:Kind`
+    lsc.hist homDeg start|none stop|none numSteps flatten <calls>
+        calls = `[ss,v|none] [st,v|none] [ns,n] [fl,T|F] [hd,k] [fit,X] [tr,X] [ft,X]`
+        → first the constructed state, then per call `[start,stop,startFixed,stopFixed,numSteps,flatten,homDeg,res]`,
+          res = `ok` | `err:IndexError` | `err:ValueError` | `[out,start,stop,numSteps,homDeg,flattened]`
+          (the arguments PersLandscapeApprox is called with)
+    lsc.old <fits>     the pre-fix `fit` on a fresh object: `[start,stop]` after each fit
+-/
 namespace PersimVerif.Drv.Transformers
-open PersimVerif Val PersimVerif.Drv
+open PersimVerif Val PersimVerif.Drv PersimVerif.Imager PersimVerif.Transformers
+open PersimVerif.Drv.Imager (errVal stateFields inputOf? opOf? optRatVal)
+
+def imgDesc (s : State Rat) (skew : Bool) (d : Dgm Rat) : Val :=
+  .list [.str "img", ofInt s.rx, ofInt s.ry, ofBool skew, ofRatPairs d]
+
+def zerosDesc (rx ry : Int) : Val := .list [.str "zeros", ofInt rx, ofInt ry]
+
+def outVal : Option (Output Val) → Val
+  | none => .str "none"
+  | some (.image i) => .list [.str "image", i]
+  | some (.images l) => .list [.str "images", .list l]
+
+def icallOf? : Val → Option (ICall Rat)
+  | .list [.str "tr", sk, kind, data] => do pure (.transform (← asBool? sk) (← inputOf? kind data))
+  | .list [.str "ft", sk, kind, data] => do pure (.fitTransform (← asBool? sk) (← inputOf? kind data))
+  | v => (opOf? v).map ICall.cfg
+
+def itrajectory (s : State Rat) (cs : List (ICall Rat)) (acc : List Val) : List Val :=
+  match cs with
+  | [] => acc.reverse
+  | c :: rest =>
+    match icall Rat.ceil imgDesc zerosDesc id s c with
+    | .error e => (errVal e :: acc).reverse
+    | .ok (s', o) => itrajectory s' rest (.list [.list (stateFields s'), outVal o] :: acc)
+
+def lstateVal (s : LState Rat) (res : Val) : Val :=
+  .list [optRatVal s.start, optRatVal s.stop, ofBool s.startFixed, ofBool s.stopFixed,
+         ofInt s.numSteps, ofBool s.flatten, ofInt s.homDeg, res]
+
+def approxDesc (_X : List (Dgm Rat)) (st sp : Option Rat) (n k : Int) : Val :=
+  .list [.str "out", optRatVal st, optRatVal sp, ofInt n, ofInt k, ofBool false]
+
+def flatDesc : Val → Val
+  | .list [o, st, sp, n, k, _] => .list [o, st, sp, n, k, ofBool true]
+  | v => v
+
+def lerrVal : LErr → Val
+  | .indexError => err "IndexError"
+  | .valueError => err "ValueError"
+
+def dgmsOf? : Val → Option (List (Dgm Rat)) := listOf? ratDgm?
+
+def lcallOf? : Val → Option (LCall Rat)
+  | .list [.str "ss", v] => do pure (.setStart (← optOf? asRat? v))
+  | .list [.str "st", v] => do pure (.setStop (← optOf? asRat? v))
+  | .list [.str "ns", n] => do pure (.setNumSteps (← asInt? n))
+  | .list [.str "fl", b] => do pure (.setFlatten (← asBool? b))
+  | .list [.str "hd", k] => do pure (.setHomDeg (← asInt? k))
+  | .list [.str "fit", X] => do pure (.fit (← dgmsOf? X))
+  | .list [.str "tr", X] => do pure (.transform (← dgmsOf? X))
+  | .list [.str "ft", X] => do pure (.fitTransform (← dgmsOf? X))
+  | _ => none
+
+/-- mirrors `lrun`: a call that raises leaves the state and the history goes on -/
+def ltrajectory (s : LState Rat) (cs : List (LCall Rat)) (acc : List Val) : List Val :=
+  match cs with
+  | [] => acc.reverse
+  | c :: rest =>
+    match lcall approxDesc flatDesc s c with
+    | .error e => ltrajectory s rest (lstateVal s (lerrVal e) :: acc)
+    | .ok (s', o) => ltrajectory s' rest (lstateVal s' (o.getD (.str "ok")) :: acc)
+
+def oldTrajectory (s : LState Rat) (Xs : List (List (Dgm Rat))) (acc : List Val) : List Val :=
+  match Xs with
+  | [] => acc.reverse
+  | X :: rest =>
+    match lfitOld s X with
+    | .error e => oldTrajectory s rest (lerrVal e :: acc)
+    | .ok s' => oldTrajectory s' rest (.list [optRatVal s'.start, optRatVal s'.stop] :: acc)
 
 def handle : Handler
+  | "imgT.hist", [br, pr, ps, calls] => do
+    let (b0, b1) ← pairOf? asRat? br
+    let (p0, p1) ← pairOf? asRat? pr
+    let ps ← asRat? ps
+    let cs ← listOf? icallOf? calls
+    match ctor Rat.ceil b0 b1 p0 p1 ps with
+    | .error e => pure (.list [errVal e])
+    | .ok s => pure (.list (itrajectory s cs [.list [.list (stateFields s), .str "none"]]))
+  | "lsc.hist", [hd, st, sp, ns, fl, calls] => do
+    let s : LState Rat := lctor (← asInt? hd) (← optOf? asRat? st) (← optOf? asRat? sp) (← asInt? ns) (← asBool? fl)
+    let cs ← listOf? lcallOf? calls
+    pure (.list (ltrajectory s cs [lstateVal s (.str "ok")]))
+  | "lsc.old", [fits] => do
+    let Xs ← listOf? dgmsOf? fits
+    pure (.list (oldTrajectory (lctor 0 none none 500 false) Xs []))
   | _, _ => none
 
 end PersimVerif.Drv.Transformers
